@@ -161,77 +161,106 @@ pub fn run(cfg: &Cfg, rep: &mut Report) {
         }
     }
 
-    // --- exhaustive: every op/argument sequence to a depth bound on every small shape ---
+    batch.flush(&cfg.driver, rep);
+
+    // --- exhaustive histories and random walks, as independent jobs over all cores ---
+    enum Job {
+        Exhaustive { shape: Rose, how: &'static str, seed: u64, depth: usize },
+        Walks { seed: u64, count: usize, steps: usize, max_size: usize },
+    }
+    let mut jobs: Vec<Job> = vec![];
     let (max_nodes, depth) = if thorough { (5, 3) } else { (4, 2) };
     for n in 1..=max_nodes {
         for mut shape in all_shapes(n) {
             lbl(&mut shape, &mut rng);
             for how in ["api", "tomb"] {
-                let start = format!("real.build\t{how}\t{}\t{}", shape.canon(), rng.next() % 1000);
-                // enumerate op sequences depth-first by re-running prefixes
-                let mut stack: Vec<Vec<String>> = vec![vec![]];
-                while let Some(prefix) = stack.pop() {
-                    // replay the prefix to learn the available ops at this point
-                    let mut st = RealState::new();
-                    let _ = st.exec(&start);
-                    let mut alive = true;
-                    for op in prefix.iter() {
-                        let (a, _) = st.exec(op);
-                        if class_of(&a) == "panic" {
-                            alive = false;
-                            break;
-                        }
-                    }
-                    if prefix.len() == depth || !alive {
-                        let mut it = prefix.clone().into_iter();
-                        run_history(&start, &mut |_, _| it.next(), rep, &mut batch);
-                        rep.count("exhaustive_histories");
-                        if batch.n_requests() > 200_000 {
-                            batch.flush(&cfg.driver, rep);
-                        }
-                        continue;
-                    }
-                    for op in all_ops(&st) {
-                        let mut p = prefix.clone();
-                        p.push(op);
-                        stack.push(p);
-                    }
-                }
+                jobs.push(Job::Exhaustive { shape: shape.clone(), how, seed: rng.next() % 1000, depth });
             }
         }
     }
-    batch.flush(&cfg.driver, rep);
-
-    // --- random walks on larger trees ---
     let (walks, steps, max_size) = if thorough { (20_000, 60, 200) } else { (600, 40, 60) };
-    for w in 0..walks {
-        let size = if w % 5 == 0 { rng.range(1, 8) } else { rng.range(2, max_size) };
-        let mut shape = random_shape(&mut rng, size);
-        lbl(&mut shape, &mut rng);
-        let how = *rng.pick(&["api", "bfs", "tomb", "parse", "merge2", "grown"]);
-        if how == "merge2" {
-            while shape.kids.len() > 2 {
-                shape.kids.pop();
-            }
-            if shape.kids.len() < 2 {
-                shape.kids.push(Rose { name: Some("M".into()), len: None, comment: None, kids: vec![] });
-                if shape.kids.len() < 2 {
-                    shape.kids.push(Rose { name: Some("M2".into()), len: None, comment: None, kids: vec![] });
+    let chunk = if thorough { 250 } else { 40 };
+    let mut left = walks;
+    while left > 0 {
+        let c = chunk.min(left);
+        jobs.push(Job::Walks { seed: rng.next(), count: c, steps, max_size });
+        left -= c;
+    }
+    let driver = cfg.driver.clone();
+    parallel(
+        jobs,
+        n_workers(),
+        "C03",
+        |job, rep| {
+            let mut batch = Batch::new("c03.history");
+            match job {
+                Job::Exhaustive { shape, how, seed, depth } => {
+                    let start = format!("real.build\t{how}\t{}\t{}", shape.canon(), seed);
+                    // enumerate op sequences depth-first by re-running prefixes
+                    let mut stack: Vec<Vec<String>> = vec![vec![]];
+                    while let Some(prefix) = stack.pop() {
+                        // replay the prefix to learn the available ops at this point
+                        let mut st = RealState::new();
+                        let _ = st.exec(&start);
+                        let mut alive = true;
+                        for op in prefix.iter() {
+                            let (a, _) = st.exec(op);
+                            if class_of(&a) == "panic" {
+                                alive = false;
+                                break;
+                            }
+                        }
+                        if prefix.len() == depth || !alive {
+                            let mut it = prefix.clone().into_iter();
+                            run_history(&start, &mut |_, _| it.next(), rep, &mut batch);
+                            rep.count("exhaustive_histories");
+                            if batch.n_requests() > 200_000 {
+                                batch.flush(&driver, rep);
+                            }
+                            continue;
+                        }
+                        for op in all_ops(&st) {
+                            let mut p = prefix.clone();
+                            p.push(op);
+                            stack.push(p);
+                        }
+                    }
+                }
+                Job::Walks { seed, count, steps, max_size } => {
+                    let mut rng = Rng::new(seed);
+                    for w in 0..count {
+                        let size = if w % 5 == 0 { rng.range(1, 8) } else { rng.range(2, max_size) };
+                        let mut shape = random_shape(&mut rng, size);
+                        lbl(&mut shape, &mut rng);
+                        let how = *rng.pick(&["api", "bfs", "tomb", "parse", "merge2", "grown"]);
+                        if how == "merge2" {
+                            while shape.kids.len() > 2 {
+                                shape.kids.pop();
+                            }
+                            if shape.kids.len() < 2 {
+                                shape.kids.push(Rose { name: Some("M".into()), len: None, comment: None, kids: vec![] });
+                                if shape.kids.len() < 2 {
+                                    shape.kids.push(Rose { name: Some("M2".into()), len: None, comment: None, kids: vec![] });
+                                }
+                            }
+                            shape.len = None;
+                        }
+                        if how == "parse" {
+                            shape.len = None;
+                        }
+                        let start = format!("real.build\t{how}\t{}\t{}", shape.canon(), rng.next() % 100000);
+                        rep.count(&format!("start:{how}"));
+                        let mut r2 = Rng::new(rng.next());
+                        let nsteps = r2.range(1, steps);
+                        run_history(&start, &mut |st, i| if i < nsteps { Some(random_op(&mut r2, st)) } else { None }, rep, &mut batch);
+                        if batch.n_requests() > 200_000 {
+                            batch.flush(&driver, rep);
+                        }
+                    }
                 }
             }
-            shape.len = None;
-        }
-        if how == "parse" {
-            shape.len = None;
-        }
-        let start = format!("real.build\t{how}\t{}\t{}", shape.canon(), rng.next() % 100000);
-        rep.count(&format!("start:{how}"));
-        let mut r2 = Rng::new(rng.next());
-        let nsteps = r2.range(1, steps);
-        run_history(&start, &mut |st, i| if i < nsteps { Some(random_op(&mut r2, st)) } else { None }, rep, &mut batch);
-        if batch.n_requests() > 200_000 {
-            batch.flush(&cfg.driver, rep);
-        }
-    }
-    batch.flush(&cfg.driver, rep);
+            batch.flush(&driver, rep);
+        },
+        rep,
+    );
 }
